@@ -23,6 +23,8 @@ import Csproto.Props.C04FirstUse
 #print axioms Csproto.Ext.repeated_extension_one_record_per_element
 #print axioms Csproto.Ext.repeated_extension_size
 #print axioms Csproto.Ext.empty_repeated_extension_emits_nothing
+#print axioms Csproto.Ext.set_to_empty_list_emits_nothing
+#print axioms Csproto.Ext.set_to_empty_list_like_cleared
 #print axioms Csproto.Ext.roundtrip
 #print axioms Csproto.Bridge.Templates.extension_arms_total
 #print axioms Csproto.Bridge.Templates.extension_repeated_arms
